@@ -1378,6 +1378,9 @@ func cmdSelftest(args []string) int {
 // ---------------------------------------------------------------- evidence
 
 func writeEvidence(prop, tier string, seed uint64, a *agg, wall, genWall float64, violations, unrepro int, matched map[string]bool, findings []finding, truncated bool, planned int) {
+	if repo != "/repo" {
+		return // a run against another tree (a scratch copy with a seeded change, a snapshot) is not evidence
+	}
 	meta := loadMeta(prop)
 	faults := map[string]int{}
 	disturb := map[string]int{}
